@@ -218,6 +218,27 @@ func runTotalLoops(x *Ctx, which string) {
 			}
 			x.C.Obl("C14.R3", "range:statementsFromIPLD", x.pos(f), "the decoding loop runs over every element of the list node (0 .. node.Length(), or its list iterator)", okB, "loops found with bounds: "+got)
 		}
+		// the selector of a decoded statement is parsed from the node's own text: what selector.Parse is given in the
+		// decoder is the string read from the tuple, not a piece or a rewriting of it
+		if f := x.fn("C14.R3", "pkg/policy.statementFromIPLD"); f != nil {
+			nP, badP := 0, ""
+			for _, p := range x.pathsQuiet(f) {
+				for _, c := range p.Calls() {
+					ct := p.Term(c)
+					if ct == nil || ct.Op != "call" || ct.Name != "pkg/policy/selector.Parse" || len(ct.Args) != 1 {
+						continue
+					}
+					nP++
+					a := ct.Args[0]
+					ok := a != nil && ((a.Op == "call" && strings.HasSuffix(a.Name, "must.String") && len(a.Args) == 1) ||
+						(a.Op == "extract" && a.Name == "#0" && len(a.Args) == 1 && a.Args[0].Op == "invoke" && strings.HasSuffix(a.Args[0].Name, "Node.AsString")))
+					if !ok {
+						badP += fmt.Sprintf("%s: selector.Parse is given %s\n", x.P.Pos(c.Pos()), firstLines(a.String(), 1))
+					}
+				}
+			}
+			x.C.Obl("C14.R3", "selector-text-verbatim:statementFromIPLD", x.pos(f), "the decoder parses the selector from the string read off the tuple, whole", badP == "" && nP > 0, dedupLines(badP))
+		}
 	case "C12":
 		if f := x.fn("C12.R3", selPkg+"resolve"); f != nil {
 			totalLoop(x, "C12.R3", "total:map-iterator", f, "the iterator segment collects every value of a map: each step of the map iterator that does not fail adds the value it returned to the list",
